@@ -10,6 +10,7 @@ cp /venv/lib/python3.12/site-packages/pydra/utils/_version.py $WT/pydra/utils/_v
 cp /repo/pydra/engine/tests/data_tests/test.nii.gz $WT/pydra/engine/tests/data_tests/ 2>/dev/null
 cd $WT
 cp $D/demo.py $WT/demo_seed.py     # some demos check that pydra is imported from next to the demo file
+cp $D/demo.py $WT/demo_A.py; cp $D/demo.py $WT/demo_B.py   # ... and some name their own module (worker processes import it)
 run_demo() { (cd $WT && timeout 300 env PYTHONPATH=$WT /venv/bin/python $WT/demo_seed.py >/tmp/demo_$$.log 2>&1; echo $?); }
 clean=$(run_demo)
 if ! git apply --3way $D/patch.diff 2>/tmp/apply_$$.log; then echo "APPLY-FAILED $(cat /tmp/apply_$$.log | head -3)"; git -C /repo worktree remove --force $WT; exit 3; fi
